@@ -42,7 +42,7 @@ def remove_post(st0, st1, a, res):
     return out + book_inv(st1, b, "BookInv' ")
 
 
-REMOVE = FSpec("OrderBook._remove", pre=remove_pre, post=remove_post, modifies=remove_modifies, props=("C02", "C04"))
+REMOVE = FSpec("OrderBook._remove", axioms=lambda st, a: book_axioms(st, a["self"]), pre=remove_pre, post=remove_post, modifies=remove_modifies, props=("C02", "C04"))
 
 
 @task("OrderBook._remove", props=["C02", "C04"], functions=["OrderBook._remove"], replay="book")
@@ -91,7 +91,7 @@ def cov_post(st0, st1, a, res):
             ("length", st1.length(q) == st0.length(q) - z3.If(v1 == 0, 1, 0))] + book_inv(st1, b, "BookInv' ")
 
 
-CHANGE_VOLUME = FSpec("OrderBook.change_order_volume", pre=cov_pre, post=cov_post, modifies=cov_modifies, props=("C04",))
+CHANGE_VOLUME = FSpec("OrderBook.change_order_volume", axioms=lambda st, a: book_axioms(st, a["self"]), pre=cov_pre, post=cov_post, modifies=cov_modifies, props=("C04",))
 
 
 @task("OrderBook.change_order_volume", props=["C04", "C01", "C02", "C03"], functions=["OrderBook.change_order_volume"], replay="book")
@@ -134,7 +134,7 @@ def add_post(st0, st1, a, res):
             ("length + 1", st1.length(q) == st0.length(q) + 1)] + book_inv(st1, b, "BookInv' ")
 
 
-ADD = FSpec("OrderBook.add", pre=add_pre, post=add_post, modifies=add_modifies, props=("C02", "C04"),
+ADD = FSpec("OrderBook.add", axioms=lambda st, a: book_axioms(st, a["self"]), pre=add_pre, post=add_post, modifies=add_modifies, props=("C02", "C04"),
             raises={"ValueError": lambda st, a: O(st, "is_buy")[a["order"].term] != st.read(a["self"], "is_buy").term})
 
 
@@ -174,10 +174,196 @@ def cancel_post(st0, st1, a, res):
             ("length", st1.length(q) == st0.length(q) - z3.If(st0.mem(q, o), 1, 0))] + book_inv(st1, b, "BookInv' ")
 
 
-CANCEL = FSpec("OrderBook.cancel", pre=cancel_pre, post=cancel_post, modifies=cancel_modifies, props=("C04",))
+CANCEL = FSpec("OrderBook.cancel", axioms=lambda st, a: book_axioms(st, a["self"]), pre=cancel_pre, post=cancel_post, modifies=cancel_modifies, props=("C04",))
 
 
 @task("OrderBook.cancel", props=["C04", "C02"], functions=["OrderBook.cancel"], replay="book")
 def t_cancel():
     obl, info = CANCEL.verify(specs={("m", "OrderBook", "_remove"): REMOVE.handler()}, setup=setup_book)
+    return {"obligations": obl, "info": [info]}
+
+
+# ----------------------------------------------------------------------------- _check_expired_orders / _set_time
+LOG_FIELDS = ["order_id", "market_id", "time", "order_time", "agent_id", "is_buy", "kind", "volume", "price", "ttl"]
+
+
+def expired(st, book, x, time=None):
+    t = st.read(book, "time").term if time is None else time
+    return z3.And(st.mem(queue(st, book).term, x), z3.Not(O(st, "ttl", "none")[x]), exp_key(st, x) < t)
+
+
+def book_inv_no_b5(st, book):
+    return [(l, f) for l, f in book_inv(st, book) if not l.startswith("B5")]
+
+
+def log_describes(st, lg, st_o, o, book_time):
+    """ExpirationLog `lg` carries the fields of order `o` (read in state st_o) and the book time"""
+    L = lambda f, part="val": st.F("ExpirationLog", f, part)
+    Oo = lambda f, part="val": O(st_o, f, part)
+    cs = [L("order_id")[lg] == Oo("order_id")[o], L("order_id", "none")[lg] == Oo("order_id", "none")[o],
+          L("market_id")[lg] == Oo("market_id")[o], L("time")[lg] == book_time,
+          L("order_time")[lg] == Oo("placed_at")[o], L("order_time", "none")[lg] == Oo("placed_at", "none")[o],
+          L("agent_id")[lg] == Oo("agent_id")[o], L("is_buy")[lg] == Oo("is_buy")[o], L("kind")[lg] == Oo("kind")[o],
+          L("volume")[lg] == Oo("volume")[o], L("price", "none")[lg] == Oo("price", "none")[o],
+          z3.Implies(z3.Not(Oo("price", "none")[o]), L("price")[lg] == Oo("price")[o]),
+          L("ttl", "none")[lg] == Oo("ttl", "none")[o], z3.Implies(z3.Not(Oo("ttl", "none")[o]), L("ttl")[lg] == Oo("ttl")[o])]
+    return z3.And(*cs)
+
+
+def ceo_pre(st, a):
+    return book_inv_no_b5(st, a["self"])
+
+
+def ceo_modifies(st, a):
+    b = a["self"]
+    q = queue(st, b).term; e = etl(st, b).term
+    return [("len", [q]), ("mem", [q]), ("el:Int", [q]), ("heapok", [q]), ("nodup", [q]), ("dd:Int_Int", [e]), ("dv:Int_Int", [e])] + \
+           [("f:ExpirationLog." + f, []) for f in LOG_FIELDS]
+
+
+def ceo_post(st0, st1, a, res):
+    b = a["self"]
+    q = queue(st0, b).term; y = z3.Const("y_ce", REF); j = z3.Int("j_ce")
+    t = st0.read(b, "time").term
+    n = st1.length(res.term)
+    le = st1.elems(res.term, ("ref", "ExpirationLog"))
+    src_of = st1.ghost["expired_at"] if "expired_at" in st1.ghost else z3.Function(fresh_name("expired_at"), z3.IntSort(), REF)        # j-th log describes this order
+    pos_of = st1.ghost["expired_pos"] if "expired_pos" in st1.ghost else z3.Function(fresh_name("expired_pos"), REF, z3.IntSort())
+    return [("queue object unchanged", queue(st1, b).term == q),
+            ("removed exactly the overdue resting orders", z3.ForAll([y], st1.mem(q, y) == z3.And(st0.mem(q, y), z3.Not(expired(st0, b, y))))),
+            ("one log per expired order: log j describes expired order src(j) with its remaining volume",
+             z3.ForAll([j], z3.Implies(z3.And(0 <= j, j < n), z3.And(expired(st0, b, src_of(j)), pos_of(src_of(j)) == j, log_describes(st1, z3.Select(le, j), st0, src_of(j), t),
+                                                                     z3.Not(st0.is_alloc(z3.Select(le, j))))))),
+            ("every expired order has its log", z3.ForAll([y], z3.Implies(expired(st0, b, y), z3.And(0 <= pos_of(y), pos_of(y) < n, src_of(pos_of(y)) == y)))),
+            ("len(result) >= 0, result is a new list", z3.And(n >= 0, z3.Not(st0.is_alloc(res.term))))] + book_inv(st1, b, "BookInv' ")
+
+
+CHECK_EXPIRED = FSpec("OrderBook._check_expired_orders", axioms=lambda st, a: book_axioms(st, a["self"]), pre=ceo_pre, post=ceo_post, modifies=ceo_modifies, props=("C04",), fresh_result=True,
+                      result=("list", ("ref", "ExpirationLog")))
+
+
+def ceo_loops():
+    def inv1(st, ctx):
+        e = ctx["entry"]; b = st.env["self"]; i = ctx["i"]
+        q = queue(e, b).term; DO = st.env["delete_orders"]; logs = st.env["logs"]
+        pos = e.ghost["DO_pos"]; y = z3.Const("y_l1", REF); j = z3.Int("j_l1")
+        t = e.read(b, "time").term
+        del_el = e.elems(DO.term, ("ref", "Order")); le = st.elems(logs.term, ("ref", "ExpirationLog"))
+        return [("queue = entry queue minus the first i overdue orders", z3.ForAll([y], st.mem(q, y) == z3.And(e.mem(q, y), z3.Not(z3.And(e.mem(DO.term, y), pos(y) < i))))),
+                ("queue length", st.length(q) == e.length(q) - i),
+                ("queue duplicate-free", st.nodup(q)),
+                ("len(logs) == i", st.length(logs.term) == i),
+                ("logs[j] describes delete_orders[j]; logs are new objects", z3.ForAll([j], z3.Implies(z3.And(0 <= j, j < i),
+                    z3.And(log_describes(st, z3.Select(le, j), e, z3.Select(del_el, j), t), z3.Not(ctx["fn_entry"].is_alloc(z3.Select(le, j))), st.is_alloc(z3.Select(le, j)))))),
+                ("delete_orders untouched", z3.And(st.length(DO.term) == e.length(DO.term), st.elems(DO.term, ("ref", "Order")) == del_el, st.memset(DO.term) == e.memset(DO.term))),
+                ("queue object and book fields unchanged", z3.And(queue(st, b).term == q, st.read(b, "time").term == t))]
+
+    def mods1(st, ctx):
+        b = st.env["self"]; q = queue(st, b).term; logs = st.env["logs"].term
+        return [("len", [q, logs]), ("mem", [q, logs]), ("el:Int", [q, logs]), ("heapok", [q, logs]), ("nodup", [q, logs])] + [("f:ExpirationLog." + f, []) for f in LOG_FIELDS]
+
+    def inv2(st, ctx):
+        e = ctx["entry"]; b = st.env["self"]; i = ctx["i"]; k = z3.Int("k_l2")
+        DK = st.env["delete_keys"]; keyof, idxof, cond_k, kvar = DK.py[2], DK.py[3], DK.py[4], DK.py[5]
+        dct0 = etl(e, b)
+        dom0 = e.ghost["dom_at_entry"]; val0 = e.ghost["val_at_entry"]
+        return [("keys popped so far are exactly the first i selected keys",
+                 z3.ForAll([k], z3.Select(st.dict_dom(dct0), k) == z3.And(z3.Select(dom0, k), z3.Not(z3.And(z3.substitute(cond_k, (kvar, k)), idxof(k) < i))))),
+                ("bucket lists untouched", st.dict_val(dct0) == val0),
+                ("expiry dict object unchanged", etl(st, b).term == dct0.term)]
+
+    def mods2(st, ctx):
+        e = etl(st, st.env["self"]).term
+        return [("dd:Int_Int", [e]), ("dv:Int_Int", [e])]
+    return {0: LoopSpec(inv1, mods1, header="delete_orders", name="remove-overdue"), 1: LoopSpec(inv2, mods2, header="delete_keys", name="pop-keys")}
+
+
+def ceo_setup(ex, st, a):
+    setup_book(ex, st, a)
+    fn_alloc0 = st.alloc_arr()
+    orig_run_for = LoopSpec.run_for
+
+    def ghost_after_do(ex_, s1):       # after `delete_orders = sum([...], [])`: position view + characterisation witness
+        DO = s1.env["delete_orders"]
+        pos, facts = s1.pos_view(DO.term)
+        s1.assume(facts)
+        s1.ghost["DO_pos"] = pos
+        s1.ghost["expired_pos"] = pos
+        src = z3.Function(fresh_name("DO_at"), z3.IntSort(), REF); jj = z3.Int("j_src")
+        s1.assume(z3.ForAll([jj], src(jj) == z3.Select(s1.elems(DO.term, ("ref", "Order")), jj)))
+        s1.ghost["expired_at"] = src
+        b = s1.env["self"]
+        s1.ghost["dom_at_entry"] = s1.dict_dom(etl(s1, b)); s1.ghost["val_at_entry"] = s1.dict_val(etl(s1, b))
+        # ghost lemma (witness k := placed_at + ttl): delete_orders holds exactly the overdue resting orders
+        y = z3.Const("y_char", REF)
+        s1.oblige("lemma:delete_orders = the overdue resting orders", z3.ForAll([y], s1.mem(DO.term, y) == expired(s1, b, y)), "lemma")
+        s1.assume(z3.ForAll([y], s1.mem(DO.term, y) == expired(s1, b, y)))
+        s1.oblige("lemma:delete_orders is duplicate-free (buckets are disjoint)", s1.nodup(DO.term), "lemma")
+    ex.ghost_after = {"assign:delete_orders": ghost_after_do}
+
+
+@task("OrderBook._check_expired_orders", props=["C04", "C10"], functions=["OrderBook._check_expired_orders"], replay="book")
+def t_check_expired():
+    loops = ceo_loops()
+
+    def extra(ex, st0, s1, a, res):
+        pass
+    obl, info = CHECK_EXPIRED.verify(loops=loops, setup=ceo_setup)
+    return {"obligations": obl, "info": [info]}
+
+
+# ----------------------------------------------------------------------------- _set_time
+def st_pre(st, a):
+    return book_inv(st, a["self"]) + [("clock does not go backwards", a["time"].term >= st.read(a["self"], "time").term)]
+
+
+def st_post(st0, st1, a, res):
+    b = a["self"]
+    q = queue(st0, b).term; y = z3.Const("y_st", REF); j = z3.Int("j_st")
+    t = a["time"].term
+    n = st1.length(res.term); le = st1.elems(res.term, ("ref", "ExpirationLog"))
+    src_of = st1.ghost["expired_at"] if "expired_at" in st1.ghost else z3.Function(fresh_name("expired_at"), z3.IntSort(), REF)
+    pos_of = st1.ghost["expired_pos"] if "expired_pos" in st1.ghost else z3.Function(fresh_name("expired_pos"), REF, z3.IntSort())
+    return [("book time = argument", st1.read(b, "time").term == t),
+            ("queue object unchanged", queue(st1, b).term == q),
+            ("an order leaves the book exactly when the clock passes placed_at + ttl", z3.ForAll([y], st1.mem(q, y) == z3.And(st0.mem(q, y), z3.Not(expired(st0, b, y, t))))),
+            ("one expiration log per expired order, with its remaining volume",
+             z3.ForAll([j], z3.Implies(z3.And(0 <= j, j < n), z3.And(expired(st0, b, src_of(j), t), pos_of(src_of(j)) == j, log_describes(st1, z3.Select(le, j), st0, src_of(j), t),
+                                                                     z3.Not(st0.is_alloc(z3.Select(le, j))))))),
+            ("every expired order has its log", z3.ForAll([y], z3.Implies(expired(st0, b, y, t), z3.And(0 <= pos_of(y), pos_of(y) < n, src_of(pos_of(y)) == y)))),
+            ("len(result) >= 0, result is a new list", z3.And(n >= 0, z3.Not(st0.is_alloc(res.term))))] + book_inv(st1, b, "BookInv' ")
+
+
+def st_effect_ghost(st0, st1, a, res):
+    pass
+
+
+SET_TIME = FSpec("OrderBook._set_time", axioms=lambda st, a: book_axioms(st, a["self"]), pre=st_pre, post=st_post,
+                 modifies=lambda st, a: [("f:OrderBook.time", [a["self"].term])] + ceo_modifies(st, a), props=("C04", "C06"), fresh_result=True,
+                 result=("list", ("ref", "ExpirationLog")))
+
+
+def _ceo_handler_with_ghost():
+    base = CHECK_EXPIRED.handler()
+
+    def h(ex, st, recv, pos, kw, node):
+        outs = base(ex, st, recv, pos, kw, node)
+        return outs
+    return h
+
+
+@task("OrderBook._set_time", props=["C04", "C06", "C10"], functions=["OrderBook._set_time"], replay="book")
+def t_set_time():
+    # the Skolem functions of the callee's postcondition become this function's witnesses
+    src = z3.Function("expired_at_w", z3.IntSort(), REF); pos = z3.Function("expired_pos_w", REF, z3.IntSort())
+
+    def ce_post(st0, st1, a, res):
+        st1.ghost["expired_at"] = src; st1.ghost["expired_pos"] = pos
+        return ceo_post(st0, st1, a, res)
+
+    def ce_effect(st0, st1, a, res):
+        st1.ghost["expired_at"] = src; st1.ghost["expired_pos"] = pos
+    callee = FSpec("OrderBook._check_expired_orders", axioms=CHECK_EXPIRED.axioms, pre=ceo_pre, post=ce_post, modifies=ceo_modifies, fresh_result=True,
+                   result=("list", ("ref", "ExpirationLog")), effect=ce_effect)
+    obl, info = SET_TIME.verify(specs={("m", "OrderBook", "_check_expired_orders"): callee.handler()}, setup=setup_book)
     return {"obligations": obl, "info": [info]}
